@@ -170,9 +170,14 @@ def foldCmd : List Function → Terminal → Bool → Option (Terminal × Bool)
     if coveredScroll f then foldCmd fs (scrollCmdSpec t f) (nt || scrolls t f) else none
 
 def checkStep (ev : StepEv) : List Verdict :=
-  if ev.kind == .resize then [] else
   let p := ev.prev.terminal
   let n := ev.next.terminal
+  -- "a height change resets the region to the full screen, a width-only change keeps it"
+  if ev.kind == .resize then
+    [ check "resize: height change resets the region, width-only change keeps it" true
+        (if n.rows == p.rows then n.topMargin == p.topMargin && n.bottomMargin == p.bottomMargin
+         else n.topMargin == 0 && n.bottomMargin + 1 == n.rows) ]
+  else
   let cmd : List Verdict :=
     if ev.funs.isEmpty then [] else
     match foldCmd ev.funs p false with
